@@ -24,9 +24,10 @@ pub const K_KILL: u32 = 16;
 pub const K_CHILDSTART: u32 = 17; // first thing a forked child logs
 pub const K_SIGNAL: u32 = 18;
 pub const K_POLL: u32 = 19;
-pub const KNAME: [&str; 20] = [
+pub const K_ESCAPE: u32 = 20; // the forked child returned from the library into the harness
+pub const KNAME: [&str; 21] = [
     "?", "pipe", "fcntl", "dup2", "close", "fork", "chdir", "setuid", "setgid", "setpgid", "execve", "sigmask",
-    "_exit", "read", "write", "waitpid", "kill", "childstart", "signal", "poll",
+    "_exit", "read", "write", "waitpid", "kill", "childstart", "signal", "poll", "escape",
 ];
 
 pub const SLEN: usize = 200;
@@ -81,11 +82,16 @@ pub fn reset() {
         (*SH).count.store(0, Ordering::SeqCst);
         (*SH).child_allocs.store(0, Ordering::SeqCst);
         (*SH).child_frees.store(0, Ordering::SeqCst);
+        DRAINED = 0;
     }
 }
 
 pub fn start() {
     reset();
+    unsafe { RECORDING = true };
+}
+/// continue recording without clearing what was recorded so far
+pub fn resume() {
     unsafe { RECORDING = true };
 }
 pub fn stop() {
@@ -121,10 +127,14 @@ pub fn rec(kind: u32, a: i64, b: i64, c: i64, ret: i64, errno: i32, s: &[u8]) {
     }
 }
 
+static mut DRAINED: usize = 0;
+/// records appended since the previous call (or since reset)
 pub fn records() -> Vec<Rec> {
     unsafe {
         let n = (*SH).count.load(Ordering::SeqCst).min(NREC);
-        (&(*SH).recs)[..n].to_vec()
+        let from = DRAINED.min(n);
+        DRAINED = n;
+        (&(*SH).recs)[from..n].to_vec()
     }
 }
 
